@@ -327,3 +327,33 @@ def hash_stable(s):
     import zlib
 
     return zlib.crc32(s.encode())
+
+
+# ================================================================================================ input representation (bounded)
+@obligation(
+    "C01.input_dtypes",
+    function=F + "linear_block_code.py:LinearBlockCodeEncoder.forward; " + F + "linear_block_code.py:LinearBlockCodeEncoder.calculate_syndrome",
+    configs=lambda tier: codes.catalogue(tier),
+    kind="custom",
+    engine="standin",
+)
+def input_dtypes(spec, cfg, tier, seed):
+    """bounded: forward(m) and calculate_syndrome(y) for bit vectors carried as int64, int32, uint8, bool, float64, float16 equal
+    the float32 results (contracts/dtypes.py) - with C01.forward_equals_xG / C01.syndrome_equals_yHt (float32, all inputs) this
+    extends the contract clauses to the other carriers on the sampled words"""
+    from . import dtypes as DT
+
+    enc, err = codes.try_build(cfg)
+    if enc is None:
+        return []
+    k, n = enc.generator_matrix.shape
+    rng = DT.rng_for(cfg, seed, "c01")
+    g = torch.Generator().manual_seed(rng.getrandbits(40))
+    cases = []
+    for shape in ((k,), (3, k), (2, 2 * k)):
+        m = torch.randint(0, 2, shape, generator=g).float()
+        cases.append((f"forward m{shape}", lambda: enc.forward, (m,)))
+    for shape in ((n,), (3, n), (2, 2 * n)):
+        y = torch.randint(0, 2, shape, generator=g).float()
+        cases.append((f"calculate_syndrome y{shape}", lambda: enc.calculate_syndrome, (y,)))
+    return DT.run("C01", spec, cfg, tier, seed, cases, DT.BIT_DTYPES, "forward and calculate_syndrome, layouts 1-D, (3,.), (2, 2 blocks)")
